@@ -44,7 +44,7 @@ func init() {
 		RaceOnly:   true,
 		ChildProbe: "gcprobe", ChildProbeSignature: GCFindingSignature,
 		Floor:       func(tier string) int { return 40 },
-		Rule:        "(one trial kind in twenty: Runs of differing shapes - every Run of a recurrent / Conv / MatMul / Gemm / broadcast node has its own batch, sequence or spatial extents) trials of 2..16 goroutines x 3..12 Runs each on one shared Model (each goroutine with its own input tensors, released together by a start barrier), plus 0..2 goroutines loading models (same bytes and other bytes) meanwhile; models: the sample models mlp/gru/scaler (ndm sparingly) and generated programs covering every family that reads shared state (initializers as Gemm/MatMul/Conv weights and bias, as initial_h/initial_c, as Reshape/Expand/Slice/Gather parameters, as PRelu slope, as ArgMax/Reduce operands, typed-field initializers, Constant/Scaler/LinearRegressor attribute tensors); GOMAXPROCS rotated over {2,4,8,16}; in half of the trials a light operator proxy injects PRNG-chosen yields/sleeps between node phases and records the global (goroutine,node) event order. in a third of the trials some Runs get one input of another shape, so that failing Runs (signature check, errors inside nodes) execute concurrently with succeeding ones and their error must be the one obtained alone. Oracles: Go race detector reports (parsed from the detector log, deduplicated by outermost frames), bit-exact comparison of every concurrent result with the sequential baseline of a fresh model, weight fingerprints at quiescence, no error/panic. A trial counts as non-trivial only if at least one pair of Runs overlapped in time (measured from one atomic clock); distinct = (model structure, goroutines, runs).",
+		Rule:        "(plus a pass of cold-start trials, one per fresh worker process: the concurrent Runs are the first thing the library does in that process, the sequential baseline is computed afterwards) (one trial kind in twenty: Runs of differing shapes - every Run of a recurrent / Conv / MatMul / Gemm / broadcast node has its own batch, sequence or spatial extents) trials of 2..16 goroutines x 3..12 Runs each on one shared Model (each goroutine with its own input tensors, released together by a start barrier), plus 0..2 goroutines loading models (same bytes and other bytes) meanwhile; models: the sample models mlp/gru/scaler (ndm sparingly) and generated programs covering every family that reads shared state (initializers as Gemm/MatMul/Conv weights and bias, as initial_h/initial_c, as Reshape/Expand/Slice/Gather parameters, as PRelu slope, as ArgMax/Reduce operands, typed-field initializers, Constant/Scaler/LinearRegressor attribute tensors); GOMAXPROCS rotated over {2,4,8,16}; in half of the trials a light operator proxy injects PRNG-chosen yields/sleeps between node phases and records the global (goroutine,node) event order. in a third of the trials some Runs get one input of another shape, so that failing Runs (signature check, errors inside nodes) execute concurrently with succeeding ones and their error must be the one obtained alone. Oracles: Go race detector reports (parsed from the detector log, deduplicated by outermost frames), bit-exact comparison of every concurrent result with the sequential baseline of a fresh model, weight fingerprints at quiescence, no error/panic. A trial counts as non-trivial only if at least one pair of Runs overlapped in time (measured from one atomic clock); distinct = (model structure, goroutines, runs).",
 		Technique:   "Go race detector (-race build) over stress workloads with injected yields, plus in-process monitors: sequential-baseline value comparison and weight fingerprints at quiescence",
 		Assumptions: []string{"the race detector only sees accesses that are executed: the workload enumerates the roles a shared weight can play", "by C02 the sequential specification of Run is a pure function of its input, so linearizability reduces to per-call comparison with the baseline"},
 		Extra: func(a *Aggregate, cov map[string]any) {
